@@ -769,6 +769,35 @@ func (env *Env) callExpr(x *ECall) (*Term, types.Type) {
 			}
 		}
 		return env.fc.get(st, k, s), nil
+	case "keptheap":
+		// keptheap("<class>"[, ref]): every object of the class that existed at function entry
+		// (other than ref) holds its entry contents - a frame fact for loop invariants
+		ks, ok := x.Args[0].(*EStr)
+		if !ok {
+			efail("keptheap needs a string class key")
+		}
+		k := ks.S
+		if strings.HasPrefix(k, "E:") {
+			if t := env.fc.eng.lookupTypeByName(k[2:]); t != nil {
+				elemClass(t) // registers the sort of the class
+			}
+		}
+		s, ok := env.fc.sortForHavoc(k)
+		if !ok {
+			efail("keptheap: unknown heap class %s", k)
+		}
+		cur := env.fc.get(st, k, s)
+		was := env.fc.get(env.old, k, s)
+		r := BVar("r", SRef)
+		cond := Op("<=", SBool, r, env.old.alloc)
+		if len(x.Args) > 1 {
+			ex, _ := arg(1)
+			if ex.sort == SSlice {
+				ex = SlArr(ex)
+			}
+			cond = And(cond, Not(Eq(r, ex)))
+		}
+		return Forall([]*Term{r}, Implies(cond, Eq(Select(cur, r), Select(was, r))), []*Term{Select(cur, r)}), nil
 	case "store":
 		a, _ := arg(0)
 		i, _ := arg(1)
